@@ -109,10 +109,15 @@ def getIndexRegGo (mem : Str) (len : Nat) (plus multiply : Bool) (sibDisp : Nat)
         | some d => getIndexRegGo mem len plus true d fuel (i + 1)
       else getIndexRegGo mem len plus multiply sibDisp fuel (i + 1)
 
+/-- the `strchr` tests of `get_index_reg` (fix 5a09eff): exactly one `[`, and the first `]` is the last character -/
+def oneBracketPair (mem : Str) : Bool :=
+  (mem.filter (· == ch! '[')).length == 1 && mem.idxOf (ch! ']') == mem.length - 1
+
 /-- `get_index_reg(instruc, mem, reg)`: `none` = EXIT_FAILURE. -/
 def getIndexReg (mem : Str) : Option (Nat × Str) :=
   if mem.isEmpty then none
   else if chAt mem (mem.length - 1) != ch! ']' then none
+  else if !oneBracketPair mem then none
   else getIndexRegGo mem mem.length false false c_SIB mem.length 0
 
 /-- `get_operand_type`. -/
